@@ -95,6 +95,8 @@ def main():
             rc, o = run(["/verif/check", pid, "--tier", tier, "-no-evidence", "-repo", wt], cwd="/verif", timeout=3600)
             viol = [l for l in o.splitlines() if l.startswith("VIOLATION") or l.startswith("  obligation")]
             detections[pid] = {"exit": rc, "lines": viol[:12]}
+            if rc not in (0, 1):
+                detections[pid]["engine_output_tail"] = o[-1500:]
             out["ran"].append("patch applied in scratch worktree; ./check %s --tier %s -repo <worktree>: rc=%d" % (pid, tier, rc))
         out["detections"] = detections
         out["detected"] = any(d["exit"] == 1 for d in detections.values())
